@@ -317,6 +317,7 @@ func (t *Transaction) With(name string, readOnly bool, createFn func() (Cachable
 			// The manager has dropped the entry of the cache this transaction wrote to
 			// earlier. Nobody can reach it through the manager anymore: it must not
 			// stay locked forever, and those still waiting for it must not reuse it.
+			verifYield("With.nDropOld")
 			oldCache.scrapped = true
 			oldCache.mu.Unlock()
 		}
